@@ -151,20 +151,26 @@ def run(ctx):
     ctx.rule('C03.3-latin1', 'the legacy atom tags carry Latin-1 text: their parsers must have a success path that does not validate the raw bytes as UTF-8', floor=2)
     for t in spec['latin1_tags']:
         ent = table.get(t)
-        if ent is None or not ent['parser']:
+        if ent is None or ent.get('error_arm'):
             continue
-        PB = P.B(ent['parser'])
+        # the parser of the tag, or - when it was folded into the dispatcher - the dispatcher's arm
+        PB = P.B(ent['parser']) if ent['parser'] else ent.get('host')
+        region = None if ent['parser'] else ent.get('blocks')
+        if PB is None:
+            continue
+        if not ent['parser']:
+            ent = dict(ent, parser='%s:arm:%d' % (PB.path, t))
         inst = '%d %s' % (t, by_tag[t]['name'])
         err = error_blocks(PB)
-        utf8_calls = [bb for bb, tt in PB.calls() if any(n in ('core::str::converts::from_utf8', 'core::str::from_utf8', 'alloc::string::String::from_utf8',
+        utf8_calls = [bb for bb, tt in PB.calls() if (region is None or bb in region) and any(n in ('core::str::converts::from_utf8', 'core::str::from_utf8', 'alloc::string::String::from_utf8',
                                                              'core::str::<impl str>::from_utf8') or n.endswith('::from_utf8') for n in callee_names(tt))]
         if not utf8_calls:
             ctx.ok('C03.3-latin1', inst, 'no UTF-8 validation of the raw atom bytes', ctx.where(PB))
             continue
         # is there a success path avoiding every from_utf8 on the raw bytes?
         rets = [bb for bb in PB.return_blocks()]
-        reach = PB.reachable(0, removed_blocks=set(utf8_calls) | err)
-        oks = [bb for bb, j, st in PB.stmts() if st['k'] == '=' and PB.is_ret_slot(st['pl']['l']) and st['rv']['k'] == 'agg' and st['rv'].get('var') == 'Ok']
+        reach = PB.reachable(0 if region is None else table[t]['bb'], removed_blocks=set(utf8_calls) | err)
+        oks = [bb for bb, j, st in PB.stmts() if (region is None or bb in region) and st['k'] == '=' and PB.is_ret_slot(st['pl']['l']) and st['rv']['k'] == 'agg' and st['rv'].get('var') == 'Ok']
         unguarded = [bb for bb in utf8_calls if not _ascii_guarded(PB, bb)]
         if unguarded:
             ctx.bad('C03.3-latin1', inst, '%s reads the raw bytes of a Latin-1 atom as UTF-8 without having established that they are ASCII: bytes >= 0x80 that happen to form a valid UTF-8 sequence '
